@@ -24,8 +24,8 @@ type gridIRI struct {
 var (
 	c14Schemes = []string{"http", "https", "HTTPS"}
 	c14Hosts   = []string{"example.com", "EXAMPLE.com", "example.com:8080", "sub.example.com", "other.org"}
-	c14Paths   = []string{"", "/", "/a", "/A", "/a/", "/a/b", "/a/./b", "/a/c/../b", "/a//b", "/a/b/c", "/.", "//"}
-	c14Queries = []string{"", "?x=1", "?x=2", "?x=1&y=2", "?y=2&x=1", "?x=1&x=2", "?x=2&x=1", "?x=1&x=1", "?x=", "?x=1&y=2&z=3"}
+	c14Paths   = []string{"", "/", "/a", "/A", "/a/", "/a/b", "/a/./b", "/a/c/../b", "/a//b", "/a/b/c", "/.", "//", "/proxy/https://remote.example/actor"}
+	c14Queries = []string{"", "?x=1", "?x=2", "?x=1&y=2", "?y=2&x=1", "?x=1&x=2", "?x=2&x=1", "?x=1&x=1", "?x=", "?x=1&y=2&z=3", "?iri=https://remote.example/actor"}
 	c14Frags   = []string{"", "#f", "#g"}
 )
 
@@ -171,10 +171,10 @@ func TestC14(t *testing.T) {
 	}
 
 	// ---- random URLs beyond the grid ----
-	seg := rapid.SampledFrom([]string{"a", "A", "b", "users", "Users", "~jdoe", "x.y", "1", "inbox", "%41", "%20", "ü", "a%2Fb"})
+	seg := rapid.SampledFrom([]string{"a", "A", "b", "users", "Users", "~jdoe", "x.y", "1", "inbox", "%41", "%20", "ü", "a%2Fb", "https:", "remote.example"})
 	hostG := rapid.SampledFrom([]string{"example.com", "Example.COM", "a.b.example.org", "localhost", "127.0.0.1", "[::1]", "xn--bcher-kva.example", "example.com:443", "example.com:80", "h"})
 	qkey := rapid.SampledFrom([]string{"x", "y", "page", "max", "a b"})
-	qval := rapid.SampledFrom([]string{"", "1", "2", "true", "a b", "%2F", "ü"})
+	qval := rapid.SampledFrom([]string{"", "1", "2", "true", "a b", "%2F", "ü", "https://remote.example/actor", "http://x.example/?a=b"})
 	type urlParts struct {
 		scheme, host string
 		segs         []string
